@@ -123,11 +123,18 @@ func (e emitter) commonRenderedLine(ds DividerSet, cellStrs []WidthString, colAl
 			fields = append(fields, ds.Inner)
 		}
 	}
+	// The last column's trailing inner divider becomes the right border, or
+	// is dropped.  With no columns and no left border there is no field at
+	// all, so nothing to replace or drop.
 	if ds.Right != "" && ds.Inner != "" {
-		fields[len(fields)-1] = ds.Right
+		if len(fields) > 0 {
+			fields[len(fields)-1] = ds.Right
+		} else {
+			fields = append(fields, ds.Right)
+		}
 	} else if ds.Right != "" {
 		fields = append(fields, ds.Right)
-	} else if ds.Inner != "" {
+	} else if ds.Inner != "" && len(fields) > 0 {
 		fields = fields[:len(fields)-1]
 	}
 	return strings.Join(fields, " ") + e.eol
